@@ -4,6 +4,7 @@ package main
 import (
 	"verif/dsim/harness"
 	"verif/dsim/props/c09"
+	"verif/dsim/props/c10"
 	"verif/dsim/props/c15"
 	"verif/dsim/props/c16"
 	"verif/dsim/props/c17"
@@ -15,6 +16,7 @@ import (
 func main() {
 	reg := map[string]harness.Harness{
 		"C09": c09.H{},
+		"C10": c10.H{},
 		"C15": c15.H{},
 		"C16": c16.H{},
 		"C17": c17.H{},
